@@ -87,6 +87,10 @@ func (r *Run) vfCall(fr *frame, fn *ssa.Function, args []value) value {
 		if d, ok := r.decidedCache[c]; ok && d == 1 {
 			return nil
 		}
+		if r.og.decide(c) == 1 {
+			r.og.hits++
+			return nil
+		}
 		r.assertQueries++
 		verdict, _ := r.solver.Check(r.ts, neg, false, nil)
 		switch verdict {
